@@ -84,11 +84,15 @@ theorem legalField_padTo {k : Nat} {l : List Nat} (h : l.length ≤ k) (hl : All
 
 /-! ## the invariant -/
 
-/-- shape of every reachable generator state: the two fields hold legal bytes then padding, `basename_len`
-    is the number of bytes in the first field, a loss-free conversion wrote at least one byte, `chksum` is a `u16` -/
+/-- shape of every reachable generator state (for every name, the empty one included): the two fields hold legal
+    bytes then padding, `basename_len` is the number of bytes in the first field, `chksum` is a `u16` -/
 def GenWF (g : Gen) : Prop :=
   ∃ b e : List Nat, g.shortName = padTo 8 b ++ padTo 3 e ∧ b.length ≤ 8 ∧ e.length ≤ 3 ∧
-    g.basenameLen = b.length ∧ AllLegal b ∧ AllLegal e ∧ g.chksum < 65536 ∧ (g.lossyConv = false → b ≠ [])
+    g.basenameLen = b.length ∧ AllLegal b ∧ AllLegal e ∧ g.chksum < 65536
+
+/-- additional invariant of the states built from a NON-EMPTY name: a loss-free conversion wrote at least one byte
+    of the base (so the exact form never starts with padding) -/
+def GenNE (g : Gen) : Prop := g.lossyConv = false → g.basenameLen ≠ 0
 
 theorem checksumStep_lt (chk : Nat) (c : Char) : checksumStep chk c < 65536 := by
   unfold checksumStep; omega
@@ -100,36 +104,45 @@ theorem checksum_lt (name : List Char) : checksum name < 65536 := by
   | nil => intro a h; simpa
   | cons c cs ih => intro a _; exact ih _ (checksumStep_lt a c)
 
-theorem newParts_wf (name base : List Char) (ext : Option (List Char)) (hb : base ≠ []) :
+theorem newParts_wf (name base : List Char) (ext : Option (List Char)) :
     GenWF (newParts name base ext) := by
   obtain ⟨b1, b2, _, b4⟩ := copyPart_spec 8 base [] false (by simp) (by intro x hx; simp at hx)
   refine ⟨(copyPart 8 base [] false).out,
     (match ext with | none => (⟨[], true, false⟩ : PartRes) | some x => copyPart 3 x [] false).out,
-    rfl, b1, ?_, rfl, b2, ?_, checksum_lt name, ?_⟩
+    rfl, b1, ?_, rfl, b2, ?_, checksum_lt name⟩
   · cases ext with
     | none => simp
     | some x => exact (copyPart_spec 3 x [] false (by simp) (by intro x hx; simp at hx)).1
   · cases ext with
     | none => intro x hx; simp at hx
     | some x => exact (copyPart_spec 3 x [] false (by simp) (by intro x hx; simp at hx)).2.1
-  · intro hl
-    have hl' : (copyPart 8 base [] false).lossy = false := by
-      simp only [newParts, Bool.or_eq_false_iff] at hl; exact hl.1
-    have := (b4 hl').2 hb (by simp)
-    intro h; rw [h] at this; simp at this
+
+theorem newParts_ne (name base : List Char) (ext : Option (List Char)) (hb : base ≠ []) :
+    GenNE (newParts name base ext) := by
+  obtain ⟨_, _, _, b4⟩ := copyPart_spec 8 base [] false (by simp) (by intro x hx; simp at hx)
+  intro hl
+  have hl' : (copyPart 8 base [] false).lossy = false := by
+    simp only [newParts, Bool.or_eq_false_iff] at hl; exact hl.1
+  have := (b4 hl').2 hb (by simp)
+  simp only [newParts]
+  simp at this
+  omega
 
 theorem newL_wf {name : List Char} {g : Gen} (h : newL name = .ok g) : GenWF g := by
   cases name with
-  | nil => simp [newL, sliceFrom] at h
+  | nil => rw [newL_nil] at h; cases h; exact newParts_wf _ _ _
   | cons c cs =>
-    have hp := c.utf8Size_pos
-    by_cases h1 : c.utf8Size = 1
-    · rcases newL_cons c cs h1 with ⟨_, h'⟩ | ⟨pre, post, _, _, h'⟩
-      · rw [h'] at h; cases h; exact newParts_wf _ _ _ (by simp)
-      · rw [h'] at h; cases h; exact newParts_wf _ _ _ (by simp)
-    · have : newL (c :: cs) = .error .panic :=
-        (newL_panic_iff _).2 (Or.inr ⟨c, cs, rfl, by omega⟩)
-      rw [this] at h; cases h
+    rcases newL_cons c cs with ⟨_, h'⟩ | ⟨pre, post, _, _, h'⟩
+    · rw [h'] at h; cases h; exact newParts_wf _ _ _
+    · rw [h'] at h; cases h; exact newParts_wf _ _ _
+
+theorem newL_ne {name : List Char} {g : Gen} (hn : name ≠ []) (h : newL name = .ok g) : GenNE g := by
+  cases name with
+  | nil => exact absurd rfl hn
+  | cons c cs =>
+    rcases newL_cons c cs with ⟨_, h'⟩ | ⟨pre, post, _, _, h'⟩
+    · rw [h'] at h; cases h; exact newParts_ne _ _ _ (by simp)
+    · rw [h'] at h; cases h; exact newParts_ne _ _ _ (by simp)
 
 /-- the fields `add_existing`/`next_iteration` never touch -/
 def SameStatic (g g' : Gen) : Prop :=
@@ -173,11 +186,14 @@ theorem addAll_static (g : Gen) (ex : List (List Nat)) :
 theorem nextIteration_static (g : Gen) : SameStatic g (nextIteration g) := ⟨rfl, rfl, rfl, rfl⟩
 
 theorem GenWF.of_static {g g' : Gen} (h : GenWF g) (hs : SameStatic g g') (hc : g'.chksum < 65536) : GenWF g' := by
-  obtain ⟨b, e, h1, h2, h3, h4, h5, h6, _, h8⟩ := h
-  exact ⟨b, e, by rw [hs.1, h1], h2, h3, by rw [hs.2.1, h4], h5, h6, hc, by rw [hs.2.2.2]; exact h8⟩
+  obtain ⟨b, e, h1, h2, h3, h4, h5, h6, _⟩ := h
+  exact ⟨b, e, by rw [hs.1, h1], h2, h3, by rw [hs.2.1, h4], h5, h6, hc⟩
+
+theorem GenNE.of_static {g g' : Gen} (h : GenNE g) (hs : SameStatic g g') : GenNE g' := by
+  intro hl; rw [hs.2.1]; exact h (by rw [← hs.2.2.2]; exact hl)
 
 theorem GenWF.chk {g : Gen} (h : GenWF g) : g.chksum < 65536 := by
-  obtain ⟨_, _, _, _, _, _, _, _, h7, _⟩ := h; exact h7
+  obtain ⟨_, _, _, _, _, _, _, _, h7⟩ := h; exact h7
 
 theorem GenWF.addExisting {g : Gen} (h : GenWF g) (sn : List Nat) : GenWF (addExisting g sn) := by
   have := addExisting_static g sn
@@ -218,7 +234,7 @@ theorem shortName_shape {g : Gen} {b e : List Nat} (hs : g.shortName = padTo 8 b
 
 theorem prefixPart_spec {g : Gen} (h : GenWF g) (w : Bool) :
     AllLegal (prefixPart g w) ∧ (prefixPart g w).length ≤ 6 := by
-  obtain ⟨b, e, hs, hb, he, hl, lb, _, _, _⟩ := h
+  obtain ⟨b, e, hs, hb, he, hl, lb, _, _⟩ := h
   obtain ⟨_, _, _, ht⟩ := shortName_shape hs hb he
   unfold prefixPart
   cases w with
@@ -254,7 +270,7 @@ theorem legalAlias_of_fields {b e : List Nat} (hb : b.length ≤ 8) (he : e.leng
 theorem buildPrefixedName_legal {g : Gen} (h : GenWF g) (i : Nat) (hi : i < 10) (w : Bool) :
     LegalAlias (buildPrefixedName g i w) := by
   obtain ⟨lp, hp⟩ := prefixPart_spec h w
-  obtain ⟨b, e, hs, hb, he, _, _, le, _, _⟩ := h
+  obtain ⟨b, e, hs, hb, he, _, _, le, _⟩ := h
   obtain ⟨_, _, hd, _⟩ := shortName_shape hs hb he
   unfold buildPrefixedName
   rw [hd]
@@ -295,11 +311,22 @@ theorem generate_cases {g : Gen} {a : List Nat} (h : generate g = .ok a) :
         exact ⟨i, by omega, by omega, hb, rfl⟩
       · cases h
 
-/-- C16.1 on a well-formed state -/
-theorem generate_legal {g : Gen} (h : GenWF g) {a : List Nat} (hg : generate g = .ok a) : LegalAlias a := by
+/-- the `~N` forms are legal in every well-formed state (also for the empty name) -/
+theorem generate_legal_prefixed {g : Gen} (h : GenWF g) {a : List Nat} (hg : generate g = .ok a)
+    (hx : a ≠ g.shortName) : LegalAlias a := by
+  rcases generate_cases hg with ⟨_, _, _, rfl⟩ | ⟨i, _, _, _, rfl⟩ | ⟨i, _, _, _, rfl⟩
+  · exact absurd rfl hx
+  · exact buildPrefixedName_legal h i (by omega) false
+  · exact buildPrefixedName_legal h i (by omega) true
+
+/-- C16.1 on a well-formed state built from a non-empty name -/
+theorem generate_legal {g : Gen} (h : GenWF g) (hne : GenNE g) {a : List Nat} (hg : generate g = .ok a) :
+    LegalAlias a := by
   rcases generate_cases hg with ⟨hl, _, _, rfl⟩ | ⟨i, _, _, _, rfl⟩ | ⟨i, _, _, _, rfl⟩
-  · obtain ⟨b, e, hs, hb, he, _, lb, le, _, hne⟩ := h
-    rw [hs]; exact legalAlias_of_fields hb he lb le (hne hl)
+  · obtain ⟨b, e, hs, hb, he, hbl, lb, le, _⟩ := h
+    have : b ≠ [] := by
+      intro h0; exact hne hl (by rw [hbl, h0]; rfl)
+    rw [hs]; exact legalAlias_of_fields hb he lb le this
   · exact buildPrefixedName_legal h i (by omega) false
   · exact buildPrefixedName_legal h i (by omega) true
 
@@ -319,6 +346,14 @@ theorem Reach.wf {g g' : Gen} (h : GenWF g) (r : Reach g g') : GenWF g' := by
   | add sn _ ih => exact ih.addExisting sn
   | next _ ih => exact ih.nextIteration
 
+theorem Reach.static {g g' : Gen} (r : Reach g g') : SameStatic g g' := by
+  induction r with
+  | refl => exact SameStatic.refl g
+  | add sn _ ih => exact ih.trans (addExisting_static _ sn).1
+  | next _ ih => exact ih.trans (nextIteration_static _)
+
+theorem Reach.ne {g g' : Gen} (h : GenNE g) (r : Reach g g') : GenNE g' := h.of_static r.static
+
 theorem Reach.addAll {g g' : Gen} (r : Reach g g') (ex : List (List Nat)) : Reach g (addAll g' ex) := by
   unfold Names.addAll
   induction ex generalizing g' with
@@ -327,11 +362,11 @@ theorem Reach.addAll {g g' : Gen} (r : Reach g g') (ex : List (List Nat)) : Reac
 
 theorem newL_bitmaps {name : List Char} {g : Gen} (h : newL name = .ok g) :
     g.longPrefixBitmap = 0 ∧ g.prefixChksumBitmap = 0 ∧ g.exactMatch = false := by
-  unfold newL at h
-  repeat' split at h
-  all_goals first
-    | (cases h; exact ⟨rfl, rfl, rfl⟩)
-    | cases h
+  cases name with
+  | nil => rw [newL_nil] at h; cases h; exact ⟨rfl, rfl, rfl⟩
+  | cons c cs =>
+    rcases newL_cons c cs with ⟨_, h'⟩ | ⟨pre, post, _, _, h'⟩ <;>
+      (rw [h'] at h; cases h; exact ⟨rfl, rfl, rfl⟩)
 
 /-- whatever the retry loop returns was produced by `generate` in a reachable state that has just been fed the
     whole population -/
